@@ -35,10 +35,27 @@ class Scanner:
         self.S = set(string_names)
         self.i = index_name
         self.cnt = counter_name
+        self.alias = {}          # local char variable -> 'cur' / 'prev' / 'first' (const char c = S[i];)
+
+    def learn_aliases(self, body):
+        """temporaries of the loop body that hold one of the three characters"""
+        for n in walk(body):
+            if n.get('k') == 'DeclStmt':
+                for d in n.get('decls', []):
+                    if isinstance(d, dict) and d.get('init') is not None:
+                        w = self.which(d['init'])
+                        if w:
+                            self.alias[d['name']] = w
+            elif n.get('k') == 'BinaryOperator' and n.get('op') == '=' and _strip(n['c'][0]).get('k') == 'DeclRefExpr':
+                w = self.which(n['c'][1])
+                if w:
+                    self.alias[_strip(n['c'][0])['name']] = w
 
     # which character does an expression denote: 'first' / 'cur' / 'prev'
     def which(self, n):
         n = _strip(n)
+        if n.get('k') == 'DeclRefExpr' and n.get('name') in self.alias:
+            return self.alias[n['name']]
         if n.get('k') != 'ArraySubscriptExpr':
             return None
         base, idx = _strip(n['c'][0]), _strip(n['c'][1])
@@ -136,6 +153,7 @@ class Scanner:
 def table(first_guards, loop_body, scanner, is_exit):
     """{'first': {class: outcome}, 'pair': {(prev, cur): outcome}} at bracket depth 0"""
     out = {'first': {}, 'pair': {}}
+    scanner.learn_aliases(loop_body)
     for c0 in CLASSES:
         env = {'first': c0, 'cur': c0, 'prev': c0, 'i': 0, 'nbrackets': 0}
         r = 'accept'
